@@ -84,6 +84,8 @@ func (pi *PathIterator[_]) LeftPart() string {
 func (pi *PathIterator[_]) Next() bool {
 	pi.start = pi.end + 1
 	if pi.start >= len(pi.path) {
+		// no more parts : the cursor stays inside the path, the current Part is empty.
+		pi.start = len(pi.path)
 		pi.end = pi.start
 
 		return false
